@@ -148,13 +148,15 @@ Qed.
 
 (* ---- histories ---- *)
 
+(* send_continue appends without looking at the watermark: the bound is stated for histories of
+   writes, hand-overs and flushes (an interim response adds 25 bytes to whatever the last buffer holds) *)
 Definition cop_small (W : Z) (p : cop) : Prop :=
-  match p with CWrite (WBytes data) _ => lenZ data <= W | _ => True end.
+  match p with CWrite (WBytes data) _ => lenZ data <= W | CContinue _ => False | _ => True end.
 
 Lemma cstep_bound c W ch p : cfg_ok c -> 0 <= W -> binv c W ch -> cop_ok p -> cop_small W p ->
   binv c W (fst (cstep c ch p)).
 Proof.
-  intros Hc HW Hb Hp Hs. destruct p as [d ans | ans]; cbn [cstep fst].
+  intros Hc HW Hb Hp Hs. destruct p as [d ans | ans | ans]; cbn [cstep fst]; [| |now elim Hs].
   - unfold write_soon. destruct (w_truthy d); cbn [negb]; [|exact Hb].
     assert (Hw : exists ch1, (match d with
                               | WBytes data => write_bytes_buf c ch data
